@@ -309,4 +309,49 @@ def c09_7(c: Ctx) -> None:
         c.fail(u, 'event_bus does not use per-handler context', 'event.event_bus cannot identify the bus running the current handler')
 
 
+@ob('C09.10', 'SIB', 'ids that are compared with each other are normalised by one and the same validator: BaseEvent.event_id, BaseEvent.event_parent_id and EventResult.event_id carry the '
+    'same annotated type (modulo `| None`); otherwise a child\'s event_parent_id (canonicalised on assignment) need not equal its parent\'s event_id, and the parent is never found')
+def c09_10(c: Ctx) -> None:
+    def ann_of(cls: str, field: str) -> ast.AST | None:
+        ci = c.prog.cls(cls)
+        for st in ci.node.body:
+            if isinstance(st, ast.AnnAssign) and isinstance(st.target, ast.Name) and st.target.id == field:
+                return st.annotation
+        return None
+
+    def strip_none(a: ast.AST) -> str:
+        if isinstance(a, ast.BinOp) and isinstance(a.op, ast.BitOr):
+            parts = [x for x in (a.left, a.right) if not (isinstance(x, ast.Constant) and x.value is None)]
+            if len(parts) == 1:
+                return strip_none(parts[0])
+        if isinstance(a, ast.Subscript) and U(a.value).split('.')[-1] == 'Optional':
+            return strip_none(a.slice)
+        return U(a)
+
+    fields = [('BaseEvent', 'event_id'), ('BaseEvent', 'event_parent_id'), ('EventResult', 'event_id')]
+    anns = {}
+    for cls, f in fields:
+        a = ann_of(cls, f)
+        if a is None:
+            raise AnchorError(f'{cls}.{f}: annotated field not found')
+        anns[(cls, f)] = strip_none(a)
+    ref = anns[('BaseEvent', 'event_parent_id')]
+    ci = c.prog.cls('BaseEvent')
+    for (cls, f), t in anns.items():
+        if t == ref:
+            c.ok(f'{ci.module} {cls}.{f}', f'{cls}.{f}: {t}')
+        else:
+            c.fail(f'{ci.module} {cls}', f'{cls}.{f} is annotated {t}, BaseEvent.event_parent_id is {ref}',
+                   f'{cls}.{f} ({t}) and event_parent_id ({ref}) are validated / canonicalised differently: ids that denote the same event can compare unequal (e.g. an upper-case id supplied by the caller), so a child '
+                   'does not find its parent and the parent never completes')
+
+
+@ob('C09.11', 'WMC', 'handler values are invoked only by execute_handler, which sets the current event / handler id around the call (same obligation as C01.6): a handler — in particular '
+    'a forwarding `other_bus.dispatch` — invoked anywhere else runs with whatever current event its task inherited, and what it dispatches is attributed to that stale event')
+def c09_11(c: Ctx) -> None:
+    from .c01 import c01_6
+
+    c01_6(c)
+
+
 OBLIGATIONS = ob.obs
